@@ -210,7 +210,8 @@ pub struct Space {
     byts: Vec<Vec<u8>>,
 }
 
-const KEYS: [&str; 3] = ["a", "b", ""];
+// `size` is also the name of a built-in function: a stored field must still win
+const KEYS: [&str; 4] = ["a", "b", "", "size"];
 
 fn strings_upto(alpha: &[&str], maxlen: usize) -> Vec<String> {
     let mut out = vec![String::new()];
@@ -423,7 +424,8 @@ impl Space {
             }
             let got = run_src(&ms, &binds);
             report(acc, &format!("map-value {}", fname), &ms, &binds, &Want::Val(V::Map(refm.clone())), &got);
-            for key in ["a", "b", "", "zz"] {
+            for key in ["a", "b", "", "size", "zz"] {
+
                 let w = match refm.get(key) {
                     Some(v) => Want::Val(v.clone()),
                     None => Want::Absent,
@@ -634,7 +636,7 @@ pub fn run(t: Tier) -> i32 {
     let mut rep = Report::new(ID, t, "exploration");
     let sp: &'static Space = Box::leak(Box::new(Space::new(t)));
     rep.rule = format!(
-        "lists: all {} lists of length <= {} over 9 elements (one per type, incl. a nested list and map) x 3 forms (folded literal, literal of bound variables, bound list): value, size (function and method), and l[i] for every int in [-size-2, size+2], i64 extremes, every uint in [0, size+1], u64 extremes and 8 non-integer indices, literal and bound; in-list: every probe x every list of length <= 2; concat-lists: all ordered pairs of lists of length <= 2 in 4 forms; maps: all {} map literals with <= {} entries over keys {{a, b, ''}} with repetition (last entry wins) in n+4 forms (all constant, each single value variable, all values variable, variable keys, bound map): value, m[k], m.k, k in m for present/absent/non-string keys; strings: all strings of length <= {} over {{a, b, e-acute}} x all needles of length <= 2: substring in, +, size (UTF-8 bytes); bytes: all pairs over 10 byte strings; other-types: `in` and `+` over all ordered pairs of one value per type must fail outside their domains. Non-trivial = the property fixes the outcome; distinct by (family, index, source)",
+        "lists: all {} lists of length <= {} over 9 elements (one per type, incl. a nested list and map) x 3 forms (folded literal, literal of bound variables, bound list): value, size (function and method), and l[i] for every int in [-size-2, size+2], i64 extremes, every uint in [0, size+1], u64 extremes and 8 non-integer indices, literal and bound; in-list: every probe x every list of length <= 2; concat-lists: all ordered pairs of lists of length <= 2 in 4 forms; maps: all {} map literals with <= {} entries over keys {{a, b, '', size (also a built-in function name)}} with repetition (last entry wins) in n+4 forms (all constant, each single value variable, all values variable, variable keys, bound map): value, m[k], m.k, k in m for present/absent/non-string keys; strings: all strings of length <= {} over {{a, b, e-acute}} x all needles of length <= 2: substring in, +, size (UTF-8 bytes); bytes: all pairs over 10 byte strings; other-types: `in` and `+` over all ordered pairs of one value per type must fail outside their domains. Non-trivial = the property fixes the outcome; distinct by (family, index, source)",
         sp.lists.len(),
         t.pick(3, 4),
         sp.maps.len(),
